@@ -104,11 +104,15 @@ pub fn run(ctx: &Ctx) -> Report {
     rep.run_stage("ast", || map_case(&cfg()), n, check_case);
     let corpus = super::c02::corpus_cases(ctx);
     rep.run_enum("corpus", &corpus, check_corpus);
+    super::scale::run(&mut rep, ctx, "C10");
     rep
 }
 
 pub fn replay(stage: &str, case: &Value) -> Check {
     let mut st = Stats::new();
+    if stage == "scale" {
+        return super::scale::replay(case);
+    }
     match stage {
         "ast" => check_case(&serde_json::from_value(case.clone()).map_err(|e| Fail::new("harness-replay", e.to_string()))?, &mut st),
         "corpus" => check_corpus(&serde_json::from_value(case.clone()).map_err(|e| Fail::new("harness-replay", e.to_string()))?, &mut st),
